@@ -19,12 +19,17 @@ report does not say `no-failing-input-found`), **G** = a generated site obligati
 failure key. "first run" is the result before any strengthening; for a missed change it names what was added.
 
 Batch 1 was used to strengthen the machinery; **batch 2 is the honest estimate of what the machinery catches
-unseen**: 17 of 40 at first run. Of the 23 missed, 3 were then caught by a new or completed contract
-(`LocMap.bound_offset_slice`, `free_conditions` in the offset contract, and — written afterwards —
+unseen**: 17 of 40 at first run. Every one of the 23 missed changes led to a strengthening (named in the
+"first run" column): new or completed contracts (`LocMap.bound_offset_slice`, `free_conditions` in the offset
+contract, `IndexHierarchy.from_index_items`, and — written after the stand-ins had been widened —
 `Index.equals`, `_ufunc_logical_skipna`, `SeriesAssign.__call__`, `normalize_container`, which now refute
-C10/4, C06/5, C15/4, C07/4, C19/5 with replayed inputs), 3 by new site generators (G11, G12), and the rest by
-widening a stand-in's scope (a label with a dot, labels that differ from frame names, a grown container read
-first, integers beyond 2**53, a NaN label on one side, ...). The pattern of the misses is the useful
+C10/4, C06/5, C15/4, C07/4, C19/5 with replayed inputs), new site generators (G11, G12), and wider stand-in
+scopes (a label with a dot, labels that differ from frame names, a grown container read first, integers beyond
+2**53, a NaN label on one side, ...). Four of these widenings exposed genuine defects of the unchanged tree
+(recorded in `known_findings.jsonl`: duration reductions, row-wise exports of big ints) or harness errors
+(a key function of the C12 harness that consolidated columns itself; NumPy rounding the int in an int-vs-float
+cell comparison of the C16 harness), corrected in the machinery.
+The pattern of the misses is the useful
 finding: nearly all need an input *class* the stand-in did not enumerate (mixed dtype of equal width, shared
 index objects, subclass members, auto-generated indices), i.e. exactly what a contract over all inputs covers
 and an enumeration does not — where a contract or site obligation existed for the changed function
